@@ -194,12 +194,49 @@ pub fn run_case(ctx: &mut Ctx, case: &Value) {
     }
 }
 
+/// `!sd` written on a mapping VALUE (or on the root) instead of a key or a sequence item. The library may decline
+/// such a document; if it accepts it, the statement applies as it stands: the claims are the document without its
+/// tags, and the paths are exactly the pointers of the tagged nodes.
+fn value_tagged_documents(ctx: &mut Ctx) {
+    let docs: [(&str, Value, &[&str]); 7] = [
+        ("age: !sd 42\n", json!({"age": 42}), &["/age"]),
+        ("address: !sd {street: x, no: 7}\nname: n\n", json!({"address": {"street": "x", "no": 7}, "name": "n"}), &["/address"]),
+        ("a:\n  b: !sd [1, 2]\n", json!({"a": {"b": [1, 2]}}), &["/a/b"]),
+        ("a: !sd\n", json!({"a": null}), &["/a"]),
+        ("k: !sd v\n!sd j: w\n", json!({"k": "v", "j": "w"}), &["/k", "/j"]),
+        ("list:\n  - !sd {k: v}\n  - x\n", json!({"list": [{"k": "v"}, "x"]}), &["/list/0"]),
+        ("a: {b: !sd {c: !sd 1}}\n", json!({"a": {"b": {"c": 1}}}), &["/a/b/c", "/a/b"]),
+    ];
+    for (doc, claims, paths) in docs.iter() {
+        let case = json!({"kind": "value-tagged", "yaml": doc});
+        crate::real::set_current(&case);
+        ctx.report.evaluations += 1;
+        ctx.report.nontrivial_case(&case);
+        match real::guard(|| sdjwt::parse_yaml(doc)) {
+            Out::Ok((j, ps)) => {
+                ctx.report.bump("value-tagged:accepted");
+                let mut got: Vec<String> = ps.clone(); got.sort();
+                let mut want: Vec<String> = paths.iter().map(|p| p.to_string()).collect(); want.sort();
+                if &j != claims {
+                    ctx.report.diff("property", "parse_yaml", "parse_yaml:claims-differ", &case, json!({"real": j, "expected": claims}));
+                } else if got != want {
+                    ctx.report.diff("property", "parse_yaml", "parse_yaml:paths-differ", &case, json!({"real": ps, "expected": paths}));
+                }
+            }
+            Out::Err(..) => ctx.report.bump("value-tagged:declined"),
+            Out::Panic(site) => ctx.report.diff("property", "parse_yaml", &format!("parse_yaml:panic:{}", site.split(' ').next().unwrap_or("")), &case, json!({"panic": site})),
+        }
+    }
+}
+
 pub fn run(ctx: &mut Ctx, replay: Option<&Value>) {
     ctx.report.rule = "block-style YAML printed from random marked trees: string-keyed mappings (quoted / plain keys, empty, numeric-looking, unicode, '/' and '~' in keys), sequences, null/bool/int/float/string scalars, empty containers; !sd (also spelled `!s%64` or through a `%TAG` handle) on mapping keys at any depth (inside sequences, below other tagged keys, in single-entry mappings) and on string sequence items; parse_yaml compared with (plain claims, set of marked pointers) and with the model on the corresponding YAML value; then Issuer::iter_disclosable + encode + Holder::verify; non-trivial = distinct tree with a nested/positional tag or >= 2 tags".to_string();
     if let Some(case) = replay {
+        if case["kind"] == json!("value-tagged") { value_tagged_documents(ctx); return; }
         run_case(ctx, case);
         return;
     }
+    value_tagged_documents(ctx);
     let n = ctx.count(8_000, 60_000);
     for i in 0..n {
         let mut rng = Rng::fork(ctx.seed, i);
